@@ -27,8 +27,9 @@ pub struct Ctx {
     pub corpus: String,
     /// free-form switches (e.g. "events=PATH")
     pub opts: BTreeMap<String, String>,
-    /// wall-clock budget per workload in seconds (sanitizer slices only): when it is used up no further
-    /// case of that workload is started. Only the *volume* explored depends on it, never a verdict.
+    /// wall-clock budget of the whole run in seconds (sanitizer slices only): when it is used up every
+    /// remaining workload still runs its first case, but no further case is started. Only the *volume*
+    /// explored depends on it, never a verdict.
     pub budget_s: Option<f64>,
 }
 
@@ -260,6 +261,9 @@ impl Report {
     }
 }
 
+/// start of the first workload of this process: the slice budget is a budget for the whole run
+static PROCESS_START: std::sync::OnceLock<std::time::Instant> = std::sync::OnceLock::new();
+
 thread_local! {
     static PANIC_MSG: RefCell<Option<String>> = const { RefCell::new(None) };
 }
@@ -303,7 +307,7 @@ where
     // chunked dynamic scheduling: cases are independent, results merged after join
     let chunk = if ctx.budget_s.is_some() { 1 } else { (n / (threads as u64 * 16)).clamp(1, 4096) };
     let results: Mutex<Vec<Local>> = Mutex::new(Vec::new());
-    let started = std::time::Instant::now();
+    let started = *PROCESS_START.get_or_init(std::time::Instant::now);
     std::thread::scope(|s| {
         for _ in 0..threads {
             s.spawn(|| {
